@@ -125,14 +125,8 @@ impl<'a> SectionsBuilder<'a> {
         // the builder still stands where it stood (on the enclosing list, or on the
         // previous item) and its insert mode must stay as it is
         if id == before && matches!(blocks[range.start], BulletList(_) | OrderedList(_)) {
-            if range.len() > 1 {
-                // what follows the empty list is the content of an item without text
-                self.builder.section(vec![]);
-                let id = self.builder.id();
-                self.process_blocks(range.start + 1..range.end, blocks);
-                self.builder.set_id(id);
-                self.builder.set_insert(false);
-            }
+            // the empty list carries nothing: the item is what follows it
+            self.process_section(range.start + 1..range.end, blocks);
             return;
         }
 
@@ -239,6 +233,8 @@ impl<'a> SectionsBuilder<'a> {
                 }
 
                 self.builder.set_id(id);
+                // (no item may have left a node behind: whatever follows is the list's sibling)
+                self.builder.set_insert(false);
             }
             OrderedList(list) => {
                 if list.items.iter().all(|item| item.is_empty()) {
@@ -253,6 +249,8 @@ impl<'a> SectionsBuilder<'a> {
                 }
 
                 self.builder.set_id(id);
+                // (no item may have left a node behind: whatever follows is the list's sibling)
+                self.builder.set_insert(false);
             }
             BlockQuote(quote) => {
                 self.builder.quote();
